@@ -267,6 +267,9 @@ func runOracle(c *proto.Corpus, order, ids string, seed uint64, free bool) {
 		out.Steps = append(out.Steps, steps)
 	}
 	out.Output = capSize() - c0
+	if simrt.Instrumented && !free {
+		out.SiteBits = simrt.SiteBits()
+	}
 	writeJSON(outPath, out)
 }
 
